@@ -110,6 +110,10 @@ impl fmt::Display for MediaDescription {
             write!(f, "{}\r\n", pwd)?;
         }
 
+        for candidate in &self.ice_candidates {
+            write!(f, "{}\r\n", candidate)?;
+        }
+
         for crypto in &self.crypto {
             write!(f, "a=crypto:{crypto}\r\n")?;
         }
